@@ -1,4 +1,4 @@
-/- Kernel obligation: `bfChk` (Proofs/C11_NumDefs.lean) on the 16-bit patterns 0x0000..0x0fff. -/
+/- Kernel obligation: `bfChk` (Proofs/C11_NumDefs.lean) on the 16-bit patterns 0x0000..0x03ff. -/
 import BitstringModel.Proofs.C11_NumDefs
 namespace BM.C11
 theorem bfChunk_00 : bfChunkOk 0 = true := by decide +kernel
